@@ -1,0 +1,16 @@
+//go:build verif
+
+package memory
+
+import "context"
+
+// VerifYield, when set, is called by AddTriples after each triple of a batch
+// (inside the graph lock) and by RemoveTriples after each triple (between two
+// critical sections). Build tag "verif" only.
+var VerifYield func(ctx context.Context, point string)
+
+func verifYield(ctx context.Context, point string) {
+	if f := VerifYield; f != nil {
+		f(ctx, point)
+	}
+}
